@@ -275,7 +275,25 @@ func runScenario(s scenario) result {
 		return res
 	}
 	atomic.StoreInt32(&askersDone, 1)
-	<-flushDone
+	select {
+	case <-flushDone:
+	case <-time.After(vlib.StallBudget()):
+		// the flusher cannot hand its message to the actor: the actor no longer takes messages
+		if ap := actorPanic.Load(); ap != nil {
+			res.failKey, res.failMsg = "C13/reply-after-timeout-panic", ap.(string)
+			return res
+		}
+		a, b := atomic.LoadInt64(&replyStarted), atomic.LoadInt64(&replyReturned)
+		verdict, dump := vlib.ClassifyStall([]string{"ActorDef[...]).run"})
+		if verdict == "blocked" && a != b {
+			res.failKey, res.failMsg = "C13/reply-blocks", fmt.Sprintf("the actor is blocked inside Reply (%d Reply calls started, %d returned) and no longer serves messages:\n%s", a, b, dump)
+		} else if verdict == "blocked" {
+			res.failKey, res.failMsg = "C13/actor-blocked", "the actor no longer takes messages:\n"+dump
+		} else {
+			res.inconclusive = "flusher slow: " + verdict
+		}
+		return res
+	}
 	if res.failKey != "" {
 		return res
 	}
